@@ -468,6 +468,15 @@ def run(ctx):
                 row.append([g[1] if g[0] == 'ok' else '?', gx[1] if gx[0] == 'ok' else '?'])
             envs.append([rels, ss, [S(e) for e in exn]])
             impl_evals.append((env, ex, row))
+        # the order of register pairs (the same band of pairs the driver compares with m_cmp_i)
+        impl_cmps = {}
+        nreg = len(regs)
+        for i in range(nreg):
+            for d in range(4):
+                j = (i * 7 + d * 5 + 1) % nreg
+                rr = sess.ask(['rel', str(regs[i]), str(regs[j])])
+                if rr[0] == 'ok':
+                    impl_cmps[(i, j)] = rr[2]
         sess.close()
         out = fw.batch(build.DRIVER, [['runi', pv, pfv, msteps, envs]])[0]
         if out[0] == 'ok' and envs and isinstance(out[-1], list) and out[-1] and out[-1][0] == 'evals':
@@ -480,7 +489,18 @@ def run(ctx):
                         ctx.disagreement('m_eval_i / m_eval_extras_i ~ evaluate / evaluate_extras on the register of step %d' % n,
                                          {'program': [dump(m)[:160] for m in msteps[:n + 1]], 'env': env, 'extras': ex}, dump(mv), dump(iv))
                         break
-            out = out[:-1]
+            if isinstance(out[-2], list) and out[-2] and out[-2][0] == 'cmps':
+                for it in out[-2][1:]:
+                    i, j, mv = int(it[0]), int(it[1]), it[2]
+                    if (i, j) in impl_cmps:
+                        ctx.corr_cases += 1
+                        if impl_cmps[(i, j)] != mv:
+                            ctx.disagreement('m_cmp_i ~ MarkerTree::cmp on the registers of steps %d and %d' % (i, j),
+                                             {'program': [dump(m)[:160] for m in msteps[:max(i, j) + 1]]}, mv, impl_cmps[(i, j)])
+                            break
+                out = out[:-2]
+            else:
+                out = out[:-1]
         ctx.evaluations += 1
         ctx.nontrivial(('replay', tuple(dump(m)[:40] for m in msteps)))
         if out[0] != 'ok' or len(out) - 1 != len(impl):
